@@ -153,6 +153,22 @@ def caught_refusal_cases():
                                         ["srt", "500 A", bad, True], ["sr", st, hs, True], ["w", "error"]], split=3, minor=minor, conn=conn)
                         c["oracle_only"] = True
                         cases.append(c)
+    # the refused part is the STATUS (CR / LF / NUL in it): caught, and the application goes on - with a proper call, or with
+    # nothing but its body
+    bad_statuses = ["200 Hello x\r\nSet-Cookie: session=forged-by-status", "200 OK\nX-Injected: by-the-status", "302 Found\rLocation: http://evil.example/",
+                    "200 O\x00K-with-a-NUL-inside"]
+    for wk in ("sync", "gthread", "async"):
+        for minor in (0, 1):
+            for bst in bad_statuses:
+                for hs in ([], [["Content-Type", "text/plain"], ["X-Of-The-Refused-Call", "yes-it-is"]]):
+                    for follow in (None, ("200 OK", [["Content-Length", "5"]]), ("500 Oops", [["X-Second", "2"]])):
+                        acts = [["srt", bst, hs, False]]
+                        if follow is not None:
+                            acts.append(["sr", follow[0], follow[1], False])
+                        acts.append(["w", "error"])
+                        c = mkcase(wk, acts, split=1, minor=minor, conn=[])
+                        c["oracle_only"] = True
+                        cases.append(c)
     return cases
 
 
@@ -299,10 +315,26 @@ def judge_caught(case, o):
     wire = o["wire"]
     app = case["reqs"][0]["app"]
     rq = case["reqs"][0]["req"]
-    eff = [a for a in app["acts"] if a[0] == "sr"][-1]
+    import re as _re
+    # nothing of a refused call - its status text, its headers - may be on the wire, whatever the application does next
+    for a in app["acts"]:
+        if a[0] == "srt":
+            for seg in _re.split("[\r\n\x00]", a[1]):
+                enc = seg.encode("latin-1", "ignore")
+                if len(enc) >= 6 and not _re.fullmatch(rb"\d{3} [A-Za-z ]{0,24}", enc) and enc in wire:
+                    fails.append("text of a refused status is on the wire: %r (the status %r was refused by start_response and the "
+                                 "application caught the refusal)" % (enc, a[1]))
+            for n, v in a[2]:
+                enc = ("%s: %s" % (n, v)).encode("latin-1", "ignore")
+                if len(enc) >= 6 and enc in wire and not any(b[0] == "sr" and [n, v] in b[2] for b in app["acts"]):
+                    fails.append("a header of the refused call is on the wire: %r" % enc)
+    srs = [a for a in app["acts"] if a[0] == "sr"]
+    if not srs:
+        return fails                 # no accepted call at all: whatever the server makes of it, it is not the application's text
+    eff = srs[-1]
     hl = L.head_lines(wire)
     if hl is None:
-        return ["the bytes sent contain no complete head: %r" % wire[:200]]
+        return fails + ["the bytes sent contain no complete head: %r" % wire[:200]]
     lines, _rest = hl
     want0 = ("HTTP/%d.%d %s" % (rq["major"], rq["minor"], eff[1])).encode("latin-1")
     if lines[0] != want0:
